@@ -201,6 +201,10 @@ func (ns *Namespace) UnmarshalYAML(value *yaml.Node) error {
 		if err := nameNode.DecodeWithOptions(&meta, yaml.DecodeOptions{KnownFields: true}); err != nil {
 			return err
 		}
+		if meta == nil {
+			// a null key, e.g. an empty key or an anchor without a value
+			return parseError(nameNode, "expected a type name")
+		}
 
 		typeDef, err := UnmarshalTypeDefinition(typeNode, meta)
 		if err != nil {
